@@ -15,6 +15,7 @@ import Rooc.Proofs.LinMain
 import Rooc.Proofs.LinCounter
 import Rooc.Proofs.LinBridgeCounter
 import Rooc.Proofs.LinDExamples2
+import Rooc.Proofs.LinOpt
 namespace Rooc.Props.C02
 open Rooc Rooc.Lin Rooc.Sem Rooc.LinP
 
@@ -193,7 +194,8 @@ example (t : K) (n : Nat) : ∃ (m : Model (Ext K)) (lm : LinModel (Ext K)) (ρ 
   · simp [exAffine, eval]
 
 /-! ## Stage D end to end — C02 on models with logic values and bare assertions
-(vocabulary: `LogicModel`, `GoodE`, `AssertShape` — see `Rooc/Props/C01.lean`, section "Stage D end to end"). -/
+(vocabulary: `LogicModel` — the STATIC contract, definedness is a consequence of the successful compilation —,
+`GoodS`, `AssertShape`: see `Rooc/Props/C01.lean`, section "Stage D end to end"). -/
 
 /-- **C02 for models with logic values and bare assertions**: for every model that compiles and satisfies the
 contract, and every source-feasible `ρ` with objective value `v`: every feasible auxiliary extension has a
@@ -229,5 +231,80 @@ example : ∃ (m : Model (Ext K)) (b : BoundsMap (Ext K)) (d : List (DomVar (Ext
       srcFeasible m ρ = true ∧ eval ρ m.objective = some v := by
   obtain ⟨lm, h⟩ := exOr_ok (K := K)
   exact ⟨exOr, [], exOr.domain, lm, _, 0, h, exOr_logicModel, exOr_domRel, exOr_box, exOr_feasible.1, exOr_feasible.2⟩
+
+/-! ## C02 at full strength — optimal values coincide
+
+`srcValues m` / `linValues lm` = the objective values attained on the feasible set of the source / linear model
+(`Rooc/Proofs/LinOpt.lean`).  From C01 and the objective agreement: for `min` the two sets have the same lower
+bounds, one has a least element iff the other has, with the same value (the optimum is attained iff attained),
+the same infimum, and are unbounded below together; dually for `max`; for `satisfy` the two sets are EQUAL;
+and both feasible sets are empty together.  Stated for the whole pipeline; the same holds for `linearizeWith`
+under `DomRel`/`BoxEnforced` (`objLink_of_logic`). -/
+
+section Optimum
+open Rooc.BoundsProofs
+variable {m : Model (Ext K)} {t : K} {maxSteps : Nat} {lm : LinModel (Ext K)}
+
+/-- feasibility status: the source model has a feasible point iff the compiled model has. -/
+theorem c02_feasibility_status (ht : 0 ≤ t) (h : Compile.linearize m (.fin t) maxSteps = .ok lm)
+    (hm : LogicModel m m.domain) (hsh : AssertShape m) (hok : DeclOK m.domain) (ht1 : t < 1 ∨ NoIntVars m.domain) :
+    (∃ ρ : String → K, srcFeasible m ρ = true) ↔ ∃ ρ' : String → K, linFeasible lm ρ' = true :=
+  (objLink_of_compile ht h hm hsh hok ht1).empty_iff
+
+/-- **minimisation**: same lower bounds of the attainable objective values (so: unbounded together), the minimum
+is attained by one model iff by the other and then has the same value, and the infimum is the same. -/
+theorem c02_min_optimum (ht : 0 ≤ t) (h : Compile.linearize m (.fin t) maxSteps = .ok lm)
+    (hm : LogicModel m m.domain) (hsh : AssertShape m) (hok : DeclOK m.domain) (ht1 : t < 1 ∨ NoIntVars m.domain)
+    (hmin : m.optType = .min) :
+    lowerBounds (linValues lm) = lowerBounds (srcValues m) ∧
+    (∀ v, IsLeast (linValues lm) v ↔ IsLeast (srcValues m) v) ∧
+    (∀ c, IsGLB (linValues lm) c ↔ IsGLB (srcValues m) c) :=
+  have L := objLink_of_compile ht h hm hsh hok ht1
+  ⟨L.lowerBounds_eq hmin, L.isLeast_iff hmin, L.isGLB_iff hmin⟩
+
+/-- **maximisation**, dually. -/
+theorem c02_max_optimum (ht : 0 ≤ t) (h : Compile.linearize m (.fin t) maxSteps = .ok lm)
+    (hm : LogicModel m m.domain) (hsh : AssertShape m) (hok : DeclOK m.domain) (ht1 : t < 1 ∨ NoIntVars m.domain)
+    (hmax : m.optType = .max) :
+    upperBounds (linValues lm) = upperBounds (srcValues m) ∧
+    (∀ v, IsGreatest (linValues lm) v ↔ IsGreatest (srcValues m) v) ∧
+    (∀ c, IsLUB (linValues lm) c ↔ IsLUB (srcValues m) c) :=
+  have L := objLink_of_compile ht h hm hsh hok ht1
+  ⟨L.upperBounds_eq hmax, L.isGreatest_iff hmax, L.isLUB_iff hmax⟩
+
+/-- **`Satisfy`**: the two models attain exactly the same objective values. -/
+theorem c02_satisfy_values (ht : 0 ≤ t) (h : Compile.linearize m (.fin t) maxSteps = .ok lm)
+    (hm : LogicModel m m.domain) (hsh : AssertShape m) (hok : DeclOK m.domain) (ht1 : t < 1 ∨ NoIntVars m.domain)
+    (hsat : m.optType = .satisfy) : linValues lm = srcValues m :=
+  (objLink_of_compile ht h hm hsh hok ht1).values_eq hsat
+
+/-- in every direction, each source objective value is attained by the linear model. -/
+theorem c02_values_attained (ht : 0 ≤ t) (h : Compile.linearize m (.fin t) maxSteps = .ok lm)
+    (hm : LogicModel m m.domain) (hsh : AssertShape m) (hok : DeclOK m.domain) (ht1 : t < 1 ∨ NoIntVars m.domain) :
+    srcValues m ⊆ linValues lm :=
+  (objLink_of_compile ht h hm hsh hok ht1).values_sub
+
+/-- the same three statements for `linearizeWith` with a given bounds map / domain. -/
+theorem c02_optimum_linearizeWith {b : BoundsMap (Ext K)} {d : List (DomVar (Ext K))}
+    (h : linearizeWith m b d = .ok lm) (hm : LogicModel m d) (hdom : DomRel m d) (hbox : BoxEnforced b d) :
+    (m.optType = .min → lowerBounds (linValues lm) = lowerBounds (srcValues m) ∧
+      ∀ v, IsLeast (linValues lm) v ↔ IsLeast (srcValues m) v) ∧
+    (m.optType = .max → upperBounds (linValues lm) = upperBounds (srcValues m) ∧
+      ∀ v, IsGreatest (linValues lm) v ↔ IsGreatest (srcValues m) v) ∧
+    (m.optType = .satisfy → linValues lm = srcValues m) :=
+  have L := objLink_of_logic hm hdom hbox h
+  ⟨fun hmin => ⟨L.lowerBounds_eq hmin, L.isLeast_iff hmin⟩,
+   fun hmax => ⟨L.upperBounds_eq hmax, L.isGreatest_iff hmax⟩, fun hsat => L.values_eq hsat⟩
+
+/-- non-vacuity: `min a s.t. assert (a or b)` compiled through the pipeline attains its optimum `0` in both
+models. -/
+example (t : K) (ht : 0 ≤ t) : ∃ (m : Model (Ext K)) (lm : LinModel (Ext K)),
+    Compile.linearize m (.fin t) 0 = .ok lm ∧ (0 : K) ∈ srcValues m ∧ (0 : K) ∈ linValues lm := by
+  obtain ⟨lm, h⟩ := exOr_compile (K := K) (.fin t)
+  have L := objLink_of_compile ht h exOr_logicModel exOr_assertShape exOr_declOK (Or.inr exOr_noInt)
+  have h0 : (0 : K) ∈ srcValues (exOr : Model (Ext K)) := ⟨_, exOr_feasible.1, exOr_feasible.2⟩
+  exact ⟨exOr, lm, h, h0, L.values_sub h0⟩
+
+end Optimum
 
 end Rooc.Props.C02
